@@ -71,6 +71,7 @@ type FakeUpstream struct {
 
 	mu          sync.Mutex
 	queries     []*UpQuery
+	badHTTP  []string
 	seq         atomic.Int64
 	connSeq     atomic.Int64
 	conns       atomic.Int64 // accepted stream connections
@@ -144,6 +145,13 @@ func (u *FakeUpstream) Queries() []*UpQuery {
 	u.mu.Lock()
 	defer u.mu.Unlock()
 	return append([]*UpQuery(nil), u.queries...)
+}
+
+// BadHTTP returns the complete HTTP requests whose dns parameter could not be decoded.
+func (u *FakeUpstream) BadHTTP() []string {
+	u.mu.Lock()
+	defer u.mu.Unlock()
+	return append([]string(nil), u.badHTTP...)
 }
 
 func (u *FakeUpstream) NumQueries() int {
@@ -297,13 +305,16 @@ func StartUpstreamWith(kind, tag, ip string, port int, tlsCfg *tls.Config, h Han
 					if tc, ok := c.(*tls.Conn); ok {
 						raw = tc.NetConn()
 					}
+					if dc, ok := raw.(*delayConn); ok {
+						raw = dc.Conn
+					}
 					u.trackConn(id, c, raw)
 				case http.StateClosed, http.StateHijacked:
 					u.untrackConn(id)
 				}
 			}}
 		addClose(srv)
-		go srv.ServeTLS(l, "", "")
+		go srv.ServeTLS(&delayListener{Listener: l, u: u}, "", "")
 	case "h3":
 		pc, err := net.ListenUDP("udp", &net.UDPAddr{IP: net.ParseIP(ip), Port: port})
 		if err != nil {
@@ -311,9 +322,31 @@ func StartUpstreamWith(kind, tag, ip string, port int, tlsCfg *tls.Config, h Han
 		}
 		u.Port = pc.LocalAddr().(*net.UDPAddr).Port
 		srv := &http3.Server{Handler: http.HandlerFunc(func(w http.ResponseWriter, r *http.Request) { u.serveHTTP(w, r, "h3") }), TLSConfig: http3.ConfigureTLSConfig(tlsCfg.Clone()), QuicConfig: &quic.Config{MaxIncomingStreams: opts.QUICMaxStreams}}
+		// the QUIC connections are accepted here (not inside http3.Server.Serve) so that the harness knows them: it
+		// counts them and can kill them like the connections of every other kind
+		ql, err := quic.ListenEarly(pc, http3.ConfigureTLSConfig(tlsCfg.Clone()), &quic.Config{MaxIdleTimeout: 30 * time.Second, MaxIncomingStreams: opts.QUICMaxStreams})
+		if err != nil {
+			pc.Close()
+			return nil, err
+		}
 		addClose(pc)
+		addClose(ql)
 		addClose(srv)
-		go srv.Serve(pc)
+		go func() {
+			for {
+				c, err := ql.Accept(context.Background())
+				if err != nil {
+					return
+				}
+				u.conns.Add(1)
+				id := u.connSeq.Add(1)
+				u.trackConn(id, quicCloser{c}, nil)
+				go func() {
+					srv.ServeQUICConn(c)
+					u.untrackConn(id)
+				}()
+			}
+		}()
 	case "quic":
 		pc, err := net.ListenUDP("udp", &net.UDPAddr{IP: net.ParseIP(ip), Port: port})
 		if err != nil {
@@ -440,6 +473,12 @@ func (u *FakeUpstream) serveHTTP(w http.ResponseWriter, r *http.Request, transpo
 	var err error
 	if r.Method == http.MethodGet {
 		raw, err = base64.RawURLEncoding.DecodeString(r.URL.Query().Get("dns"))
+		if err != nil {
+			// a complete request whose dns parameter is not base64url: the client wrote something it never meant to
+			u.mu.Lock()
+			u.badHTTP = append(u.badHTTP, fmt.Sprintf("GET %q", r.URL.RawQuery))
+			u.mu.Unlock()
+		}
 	} else {
 		raw, err = io.ReadAll(io.LimitReader(r.Body, 70000))
 	}
@@ -542,4 +581,34 @@ func (u *FakeUpstream) serveQUIC(l *quic.Listener) {
 			}
 		}()
 	}
+}
+
+// delayListener makes the first read of every accepted connection wait for the upstream's AcceptDelay: the TLS
+// handshake of an HTTP client then stalls for that long (the stream kinds do the same in serveStream).
+type delayListener struct {
+	net.Listener
+	u *FakeUpstream
+}
+
+func (l *delayListener) Accept() (net.Conn, error) {
+	c, err := l.Listener.Accept()
+	if err != nil {
+		return nil, err
+	}
+	return &delayConn{Conn: c, u: l.u}, nil
+}
+
+type delayConn struct {
+	net.Conn
+	u    *FakeUpstream
+	once sync.Once
+}
+
+func (c *delayConn) Read(p []byte) (int, error) {
+	c.once.Do(func() {
+		if d := c.u.AcceptDelay.Load(); d > 0 {
+			time.Sleep(time.Duration(d))
+		}
+	})
+	return c.Conn.Read(p)
 }
